@@ -2,7 +2,7 @@
 import ast
 
 from .astutil import calls, const, kw, short
-from .program import AnalysisIncomplete, BackendTable, Ext, Func, Partial, norm
+from .program import AnalysisIncomplete, BackendTable, Ext, Func, Partial, SelectedBackend, norm
 
 FLOAT_T = {"'f4'", "'f8'", "'float32'", "'float64'", 'np.float32', 'np.float64', 'float', 'numpy.float32',
            'numpy.float64', "'f'", "'d'", 'np.float16', 'np.double', 'np.single'}
@@ -85,7 +85,8 @@ class FloatProv:
                     continue
                 t = prog.resolve_callable(f, f.module, n.func)
                 targets = []
-                if isinstance(t, BackendTable) and isinstance(n.func, ast.Call):
+                if isinstance(t, SelectedBackend):
+                    t = t.table
                     for slot, expr in t.entries.items():
                         targets.append(prog.resolve_callable(t.scope, f.module, expr))
                 else:
@@ -136,7 +137,7 @@ class FloatProv:
             if isinstance(tt, Func) and e.args:
                 # package functions that transform an array keep (or widen) the dtype of their first argument
                 return self.is_float(f, e.args[0], depth + 1, seen)
-            if isinstance(t, BackendTable) and e.args:
+            if isinstance(t, (BackendTable, SelectedBackend)) and e.args:
                 return self.is_float(f, e.args[0], depth + 1, seen)
             if nm in ('rechunk', 'copy', 'ravel', 'reshape') and isinstance(e.func, ast.Attribute):
                 return self.is_float(f, e.func.value, depth + 1, seen)
